@@ -68,7 +68,8 @@ def disk_guard(min_free_gb=25):
         if free < min_free_gb:
             with Lock("diskguard"):
                 sh("go clean -cache", timeout=600, env=go_env())
-                sh("rm -rf %s/*-alt-*" % BUILD)
+                # only scratch directories no run has touched for 20 minutes (a concurrent run may be building in one)
+                sh("find %s -maxdepth 1 -name '*-alt-*' -mmin +20 -exec rm -rf {} +" % BUILD)
     except OSError:
         pass
 
